@@ -62,6 +62,14 @@ REGISTRY = {
                          'shuffled columns; PYTHONHASHSEED in {0,1,2,3} (sub-processes); n_jobs in {2,3} with a pool that delivers imap_unordered results in arbitrary (seeded) completion order. '
                          'Nothing is proved: the pool sites are library-mediated (multiprocessing) and the independence argument is over pandas code.',
              note='Not covered: the behaviour of the real multiprocessing.Pool (replaced by an in-process pool with arbitrary completion order).'),
+ 'C11': dict(level='other', P=[], R=['rtc.c11_invariance'],
+             explanation='BOUNDED relational contracts only (a two-run property of the pandas pipeline; nothing is proved): for count-table frames with exact ties and for random frames, the kept '
+                         'features and the row partition induced by transform are compared between the original sample and its re-encodings: row permutation / reversal, three index relabellings, '
+                         'exact affine maps of the quantitative features, order-preserving renaming of the categories.'),
+ 'C18': dict(level='other', P=[GL_ALL], R=['rtc.c18_chained'],
+             explanation='PROVED: the GroupedList operations the merge loop is made of (group, append, sort_by, get_group, values) meet their contracts. BOUNDED: ChainedDiscretizer on seeded small '
+                         'hierarchies with leaf frequencies placed around min_freq: known_values complete, every hierarchy value still present, a value keeps its own modality iff frequent, rare values merged '
+                         'into an ancestor, rare intermediate groups merged further up, unknown values raise / are merged with the missing values, transform outputs the group leader.'),
  'C13': dict(level='proof', P=[GL_ALL], R=['rtc.c13_grouped_list'],
              explanation='GroupedList: representation invariant WF established by the three constructors and preserved by every mutating method, exact effect of each '
                          'operation on the abstract view (ordered leader -> members), observers equal to their definition over the view: proved for all inputs by engine P '
